@@ -1041,6 +1041,17 @@ func TestVerifC08(t *testing.T) {
 	R := func(lo, hi uint64, aged bool) c08Op { return c08Op{Typ: "R", S: lo, Hi: hi, Aged: aged} }
 	H, X := c08Op{Typ: "H"}, c08Op{Typ: "X"}
 
+	// ---- (s) system level, run first so that its findings lead the report: real database + caching feed + real
+	//      continuous changes feeds (MultiChangesFeed with late-sequence feeds); monitors only ----
+	nSys := vBudget(9, 60)
+	sysFailed := 0
+	for k := 0; k < nSys && sysFailed < 3; k++ {
+		if !c08SystemScenario(t, rec, rnd, k) {
+			sysFailed++
+		}
+	}
+	rec.Extra("system_scenarios_failed", sysFailed)
+
 	// ---- (a) corpus: the situations named in DESIGN.md (duplicates, skip + late arrival, unused ranges over
 	//      pending and skipped, truncation of an overlapping range, abandon) ----
 	corpus := []struct {
@@ -1383,14 +1394,5 @@ func TestVerifC08(t *testing.T) {
 		}
 		in.close()
 		rec.Count("concurrent", "concurrent", key, len(o.Skip) > 0 || len(o.Pend) > 0)
-	}
-
-	// ---- (f) system level: real database + caching feed + continuous changes feeds (monitors only) ----
-	nSys := vBudget(9, 60)
-	sysFailed := 0
-	for k := 0; k < nSys && sysFailed < 3; k++ {
-		if !c08SystemScenario(t, rec, rnd, k) {
-			sysFailed++
-		}
 	}
 }
